@@ -10,5 +10,6 @@ CONSTANTS
   QStarts = {0, 1, 2, 3}
   QStops = {3, 4, 5, 6, 7}
   TimeCols = {"none", "start", "stop"}
-INVARIANTS TypeOK CursorContract TableContractModuloF18
+  EWSAsFound = FALSE
+INVARIANTS TypeOK CursorContract TableContract
 CHECK_DEADLOCK FALSE
